@@ -224,7 +224,22 @@ var (
 	c20BoolVals = []string{"true", "false", c20Missing}
 )
 
+// c20ExtraVals are additional values of single fields: small stop / resume
+// thresholds, so that the cross-referenced pair contains (stop, resume) =
+// (4,1), (10,0), (3,1), (2,2), … and the limiter history stays short.
+var c20ExtraVals = map[string][]string{
+	"ratelimit.connection_limit.stop":   {"2", "3", "4", "10"},
+	"ratelimit.connection_limit.resume": {"2"},
+}
+
 func c20Values(l *c20Leaf) (vals []string) {
+	defer func() {
+		for _, v := range c20ExtraVals[l.Path] {
+			if v != l.Val {
+				vals = append(vals, v)
+			}
+		}
+	}()
 	switch l.Kind {
 	case "int":
 		vals = c20IntVals
@@ -262,6 +277,9 @@ type c20Case struct {
 }
 
 func (c c20Case) String() string {
+	if len(c.Muts) == 0 {
+		return "the unchanged config.dist.yaml"
+	}
 	var parts []string
 	for _, m := range c.Muts {
 		parts = append(parts, m.Path+"="+m.Value)
@@ -464,6 +482,11 @@ type c20Pb struct {
 	Kind   string // panic | unserviceable
 	Where  string // component
 	Detail string
+
+	// Key, if not empty, is the complete finding key: the problem is a defect
+	// of the component for configurations that are valid by any reading, not
+	// of the validation of the changed fields.
+	Key string
 }
 
 // eval runs one configuration against the real code.
@@ -607,6 +630,9 @@ func (w *c20World) sameRejection(c c20Case, errText string) bool {
 }
 
 func c20Field(c c20Case) string {
+	if len(c.Muts) == 0 {
+		return "baseline"
+	}
 	var ps []string
 	for _, m := range c.Muts {
 		ps = append(ps, m.Path)
@@ -638,8 +664,19 @@ func (w *c20World) runCase(r *vrt.Run, c c20Case) (fs []vrt.Finding) {
 	// problem of a pair that one of its two single changes reproduces on its
 	// own belongs to that single change, which is a case of its own in every
 	// tier.
-	problems := o.Problems
-	if len(c.Muts) > 1 {
+	var problems []c20Pb
+	for _, p := range o.Problems {
+		if p.Key == "" {
+			problems = append(problems, p)
+
+			continue
+		}
+		fs = append(fs, vrt.Finding{
+			Key:    p.Key,
+			Detail: fmt.Sprintf("%v is %s, then %s: %s", c, o.Class, p.Kind, c20Short(p.Detail)),
+		})
+	}
+	if len(c.Muts) > 1 && len(problems) > 0 {
 		explained := map[string]bool{}
 		for _, m := range c.Muts {
 			so, _ := w.eval(c20Case{Muts: []c20Mut{m}})
@@ -647,8 +684,9 @@ func (w *c20World) runCase(r *vrt.Run, c c20Case) (fs []vrt.Finding) {
 				explained[p.Kind+"/"+p.Where] = true
 			}
 		}
+		all := problems
 		problems = nil
-		for _, p := range o.Problems {
+		for _, p := range all {
 			if explained[p.Kind+"/"+p.Where] {
 				r.Count("pair-problems-explained-by-single", 1)
 
@@ -882,11 +920,13 @@ func TestVerifC20(t *testing.T) {
 	r.Bound("deviations", vrt.Pick(r, "1 field; 2 cross-referenced fields", "1 field; 2 cross-referenced fields; any 2 fields of one section (full alphabet); any 2 fields of different sections (reduced alphabet: zero, smallest positive, largest, missing)"))
 	r.Note("mutated fields: %s", strings.Join(names, " "))
 
-	// The baseline must be accepted and serviceable, otherwise the harness
-	// misrepresents the code.
+	// The baseline must be accepted, otherwise the harness misrepresents the
+	// code.  Behavioural problems of the accepted baseline are findings like
+	// those of any other case (the baseline is the first case of part
+	// "single", key suffix "baseline").
 	if !r.Replaying() {
 		o, _ := w.eval(c20Case{})
-		if o.Class != "accepted" || len(o.Problems) > 0 {
+		if o.Class != "accepted" {
 			vrt.Fatalf("baseline config.dist.yaml: class %s err %q problems %+v", o.Class, o.Err, o.Problems)
 		}
 	}
